@@ -463,7 +463,10 @@ class BeliefPropagationDecoder(BaseBlockDecoder[Union[LinearBlockCodeEncoder, LD
         def decode_block(received_block: torch.Tensor) -> torch.Tensor:
             """Decode a single block of received codewords."""
             # Decode the block using the decoder's logic
-            B, _, L = received_block.size()
+            # apply_blockwise passes (..., blocks, n): decode every block of every row
+            L = received_block.size(-1)
+            received_block = received_block.reshape(-1, 1, L)
+            B = received_block.size(0)
             device = received_block.device
             messages = received_block.view(-1, L)
             cv = torch.zeros(messages.size(0), self.num_edges, device=device)
